@@ -207,7 +207,7 @@ class C07(PropBase):
     rule = ('searches built from valid sids of every type: subsets of segments replaced by *, >, comma lists, aliases; contiguous spans collapsed '
             'into **; 0-2 filters (existing, deeper, foreign, optional, comma-valued, alias); malformed searches; non-trivial = unfolds to at least one '
             'typed search or raises; distinct by search string')
-    partial_note = 'denotation is an executable python oracle (independent of model and code); Coq theorems cover the structural clauses'
+    partial_note = 'refinement pipeline = denotation proved for plain bodies and url-safe queries under unfold_conf_okb; outside those guards the denotation is the executable python oracle (independent of model and code)'
     def cases(self, rng, ctx, tier):
         v = gen.vocab_from_ctx(ctx)
         n = 120 if tier == 'quick' else 2500
